@@ -232,6 +232,10 @@ TARGETS = {
                               lambda obj: ["mutual_information"], _climate_calls),
     "havlin_anom": Target("havlin_anom", lambda: _climate_inputs("HavlinClimateNetwork", True)[:2],
                           lambda obj: [], _climate_calls),
+    "ccn": Target("ccn", lambda: (families.FAMILIES["ccn"].build(families.INIT["ccn"]), {}),
+                  _fam_names("ccn"), _fam_calls("ccn", {})),
+    "escn": Target("escn", lambda: (families.FAMILIES["escn"].build(families.INIT["escn"]), {}),
+                   _fam_names("escn"), _fam_calls("escn", {})),
     "havlin": Target("havlin", lambda: _climate_inputs("HavlinClimateNetwork")[:2], lambda obj: [], _climate_calls),
     "hilbert": Target("hilbert", lambda: _climate_inputs("HilbertClimateNetwork")[:2], lambda obj: [], _climate_calls),
     "partialcorr": Target("partialcorr", lambda: _climate_inputs("PartialCorrelationClimateNetwork")[:2],
@@ -551,7 +555,7 @@ def _nontrivial(rec):
 
 QUICK_TARGETS = ["network", "rp", "rn", "jrp", "surrogates", "climate", "resnetwork", "tsonis", "mutualinfo",
                  "spearman", "isrn", "eventseries", "interacting_disc", "havlin", "hilbert", "partialcorr",
-                 "mutualinfo_anom", "spearman_anom", "tsonis_anom", "havlin_anom"]
+                 "mutualinfo_anom", "spearman_anom", "tsonis_anom", "havlin_anom", "ccn", "escn"]
 
 
 def main(ctx):
